@@ -776,3 +776,48 @@ def bin_suffix(ctx):
                         'a BIP38 key (or raw 32-byte key) whose secret ends in 01 imports as another key with a 31-byte secret: 1 in 256 keys')
             continue
         ctx.require(kb == seg.seg(('secret', 32)), 'keys:Key.__init__', 'binary import of %s takes %s as the key, expected secret[0:32]' % (label, seg.fmt(kb) if seg.is_seg(kb) else kb), blks[0])
+
+
+@PROP.obligation('C12.candidate-order', canaries=[
+    mut.replace_expr('keys', 'HDKey.from_wif', "list(dict.fromkeys([n['network'] for n in prefix_data]))", "sorted(set((n['network'] for n in prefix_data)))", 'candidate networks of an extended key in alphabetical order'),
+    mut.replace_expr('keys', 'get_key_format', "list(dict.fromkeys([n['network'] for n in prefix_data]))", "list(set([n['network'] for n in prefix_data]))", 'candidate networks of an extended key in hash order'),
+])
+def candidate_order(ctx):
+    """Version bytes shared by several networks (tprv: testnet, testnet4, signet, dogecoin_testnet, ...) give a LIST of candidate networks;
+    without a hint the first one is taken, and the order of that list is the priority order of the network definitions (bitcoin before
+    its testnets, testnet before signet). Wherever keys.py picks `<candidates>[0]`, the list is not rebuilt through set() / sorted() /
+    frozenset(), which replace the priority order by hash or alphabetical order."""
+    from ..dfa import ReachingDefs
+    m = ctx.repo.mod('keys')
+    n = 0
+    for q, f in sorted(m.functions.items()):
+        picks = [x for x in ast.walk(f) if isinstance(x, ast.Subscript) and isinstance(x.value, ast.Name) and 'network' in x.value.id and isinstance(x.slice, ast.Constant) and x.slice.value == 0]
+        if not picks:
+            continue
+        rd = ReachingDefs(f)
+        for pk in picks:
+            nid = rd.node_of_ast(pk)
+            if nid is None:
+                continue
+            n += 1
+            for d in rd.reaching(nid, pk.value.id):
+                if d.value is None or d.kind == 'aug':
+                    continue
+                calls = [norm(c.func) for c in ast.walk(d.value) if isinstance(c, ast.Call)]
+                bad = [c for c in calls if c in ('set', 'sorted', 'frozenset')]
+                ctx.saw('%s: %s[0] <- %s' % (q, pk.value.id, norm(d.value)[:70]))
+                if bad:
+                    ctx.violate('keys:' + q, 'the first candidate network is taken from `%s`: %s() replaces the priority order of the network definitions' % (norm(d.value)[:80], bad[0]), d.ast,
+                                'a tprv / vprv imported without a network hint becomes a dogecoin_testnet / signet key: other WIF version byte and addresses than the testnet key it is')
+    ctx.floor(n, 3, 'first-candidate picks')
+    # the candidate lists that are handed on (get_key_format returns one under 'networks'; its callers take [0]) keep the order too
+    nd = 0
+    for q, f in sorted(m.functions.items()):
+        for s_ in ast.walk(f):
+            if isinstance(s_, ast.Assign) and len(s_.targets) == 1 and isinstance(s_.targets[0], ast.Name) and s_.targets[0].id.endswith('networks'):
+                nd += 1
+                bad = [norm(c.func) for c in ast.walk(s_.value) if isinstance(c, ast.Call) and norm(c.func) in ('set', 'sorted', 'frozenset')]
+                if bad:
+                    ctx.violate('keys:' + q, 'the candidate list `%s` is rebuilt through %s(): the priority order of the network definitions is lost' % (norm(s_)[:90], bad[0]), s_,
+                                'a tprv / vprv imported without a network hint becomes a dogecoin_testnet / signet key')
+    ctx.saw('%d candidate-network lists are built without set() / sorted()' % nd)
